@@ -10,6 +10,7 @@ import (
 	"os"
 	"reflect"
 	"regexp"
+	"runtime"
 	"sort"
 	"strings"
 	"sync"
@@ -30,7 +31,10 @@ type Case struct {
 	Plan          Plan           `json:"plan"`
 	CancelAt      int            `json:"cancelAt,omitempty"`  // cancel the request context when the logical clock reaches this value (0 = never)
 	TimeoutMs     int            `json:"timeoutMs,omitempty"` // watchdog for the whole case
+	VarsJSON      string         `json:"varsJSON,omitempty"`  // C02: variables as JSON text, decoded like the HTTP transports do (json.Decoder.UseNumber); overrides Variables
 	Introspection bool           `json:"introspection,omitempty"`
+	MaxPayloads   int            `json:"maxPayloads,omitempty"` // >0: call the response function only this many times (1 = single-response transports)
+	LeakCheck     bool           `json:"leakCheck,omitempty"` // after the case: cancel, wait, and report surviving goroutines
 }
 
 type ErrOut struct {
@@ -58,6 +62,8 @@ type Result struct {
 	Log       []Inv           `json:"log"`
 	Recovers  int             `json:"recovers"`
 	Hung      bool            `json:"hung,omitempty"`
+	Leaked    []string        `json:"leaked,omitempty"` // goroutines of gqlgen / generated code still alive after the request ended and its context was cancelled
+	Cancelled bool            `json:"cancelled,omitempty"`
 	Crash     string          `json:"crash,omitempty"`
 	Plan      json.RawMessage `json:"plan,omitempty"`
 	Plain     *Result         `json:"plain,omitempty"` // the same operation with every @defer removed (C13)
@@ -75,7 +81,15 @@ func errsOut(l gqlerror.List) []ErrOut {
 
 // RunCase executes one case through graphql/executor against the generated schema.
 func RunCase(es graphql.ExecutableSchema, c Case) Result {
-	st := &State{Plan: c.Plan, Schema: es.Schema()}
+	if c.VarsJSON != "" {
+		dec := json.NewDecoder(strings.NewReader(c.VarsJSON))
+		dec.UseNumber()
+		c.Variables = nil
+		if err := dec.Decode(&c.Variables); err != nil {
+			return Result{ID: c.ID, Query: c.Query, Payloads: []Payload{}, Crash: "bad varsJSON: " + err.Error()}
+		}
+	}
+	st := &State{Plan: c.Plan, Schema: es.Schema(), CancelAt: int64(c.CancelAt)}
 	res := Result{ID: c.ID, Query: c.Query, Variables: c.Variables, OpName: c.OperationName, Payloads: []Payload{}}
 	ex := executor.New(es)
 	var rmu sync.Mutex
@@ -90,6 +104,8 @@ func RunCase(es graphql.ExecutableSchema, c Case) Result {
 	}
 	base, cancel := context.WithCancel(context.Background())
 	defer cancel()
+	st.Cancel = cancel
+	before := gqlgenGoroutines()
 	ctx := WithState(graphql.StartOperationTrace(base), st)
 	done := make(chan struct{})
 	go func() {
@@ -120,6 +136,9 @@ func RunCase(es graphql.ExecutableSchema, c Case) Result {
 			if resp.HasNext == nil || !*resp.HasNext {
 				break
 			}
+			if c.MaxPayloads > 0 && len(res.Payloads) >= c.MaxPayloads {
+				break
+			}
 		}
 	}()
 	to := time.Duration(c.TimeoutMs) * time.Millisecond
@@ -131,7 +150,21 @@ func RunCase(es graphql.ExecutableSchema, c Case) Result {
 	case <-time.After(to):
 		res.Hung = true
 	}
+	if c.LeakCheck {
+		// the request has ended: cancel its context and give every goroutine started on its behalf
+		// a grace period to finish
+		cancel()
+		deadline := time.Now().Add(400 * time.Millisecond)
+		for {
+			res.Leaked = newGoroutines(before, gqlgenGoroutines())
+			if len(res.Leaked) == 0 || time.Now().After(deadline) {
+				break
+			}
+			time.Sleep(5 * time.Millisecond)
+		}
+	}
 	st.mu.Lock()
+	res.Cancelled = st.Cancelled
 	res.Log = append([]Inv{}, st.Log...)
 	res.Recovers = st.Recov
 	st.mu.Unlock()
@@ -203,6 +236,46 @@ func StripDefer(q string) string {
 	return hdr + "{" + keep.String() + body[1:]
 }
 
+// gqlgenGoroutines returns the stacks of goroutines that are executing gqlgen runtime or generated code
+// (identified by frames in github.com/99designs/gqlgen/graphql, .../codegen or verifharness/genout),
+// keyed by goroutine id.
+func gqlgenGoroutines() map[string]string {
+	buf := make([]byte, 1<<22)
+	n := runtime.Stack(buf, true)
+	out := map[string]string{}
+	for _, g := range strings.Split(string(buf[:n]), "\n\n") {
+		if !strings.HasPrefix(g, "goroutine ") {
+			continue
+		}
+		id := strings.Fields(g)[1]
+		if strings.Contains(g, "universal.RunCase(") && !strings.Contains(g, "RunCase.func") {
+			continue // the runner's own calling goroutine
+		}
+		if strings.Contains(g, "verifharness/genout/") || strings.Contains(g, "gqlgen/graphql.") ||
+			strings.Contains(g, "gqlgen/graphql/") {
+			out[id] = g
+		}
+	}
+	return out
+}
+
+func newGoroutines(before, after map[string]string) []string {
+	var out []string
+	for id, g := range after {
+		if _, ok := before[id]; ok {
+			continue
+		}
+		// keep the top frames only
+		lines := strings.Split(g, "\n")
+		if len(lines) > 7 {
+			lines = lines[:7]
+		}
+		out = append(out, strings.Join(lines, " | "))
+	}
+	sort.Strings(out)
+	return out
+}
+
 type introspectionOn struct{}
 
 func (introspectionOn) ExtensionName() string                          { return "VerifIntrospection" }
@@ -222,6 +295,7 @@ func Main(newES func(bind func(stub any, directives any, complexity any)) graphq
 	seed := flag.Uint64("seed", 1, "")
 	n := flag.Int("n", 200, "number of generated cases")
 	profile := flag.String("profile", "c01", "generator profile")
+	maxHung := flag.Int("maxhung", 0, "stop after this many hung cases (0 = never)")
 	flag.Parse()
 	u := &U{Types: types}
 	es := newES(u.Bind)
@@ -229,9 +303,12 @@ func Main(newES func(bind func(stub any, directives any, complexity any)) graphq
 	defer out.Flush()
 	enc := json.NewEncoder(out)
 	enc.SetEscapeHTML(false)
+	hung := 0
 	switch *mode {
 	case "schema":
 		enc.Encode(SchemaToJSON(es.Schema()))
+	case "c02schema":
+		enc.Encode(C02Schema(es.Schema(), u.StubType))
 	case "gen":
 		g := NewGen(es.Schema(), *seed, *profile)
 		for i := 0; i < *n; i++ {
@@ -257,6 +334,29 @@ func Main(newES func(bind func(stub any, directives any, complexity any)) graphq
 				r.Plain = &pr
 			}
 			enc.Encode(r)
+		}
+	case "http":
+		sc := bufio.NewScanner(os.Stdin)
+		sc.Buffer(make([]byte, 1<<20), 1<<26)
+		for sc.Scan() {
+			line := bytes.TrimSpace(sc.Bytes())
+			if len(line) == 0 {
+				continue
+			}
+			var c HTTPCase
+			if err := json.Unmarshal(line, &c); err != nil {
+				fmt.Fprintln(os.Stderr, "bad case:", err)
+				os.Exit(2)
+			}
+			hr := RunHTTP(es, c)
+			enc.Encode(hr)
+			out.Flush()
+			if hr.Hung {
+				hung++
+				if *maxHung > 0 && hung >= *maxHung {
+					return
+				}
+			}
 		}
 	case "faults":
 		// every operation first runs fault-free; then once per user-code invocation it made, with that
@@ -302,6 +402,12 @@ func Main(newES func(bind func(stub any, directives any, complexity any)) graphq
 			r := RunCase(es, c)
 			enc.Encode(r)
 			out.Flush()
+			if r.Hung {
+				hung++
+				if *maxHung > 0 && hung >= *maxHung {
+					return
+				}
+			}
 		}
 	}
 }
